@@ -592,15 +592,21 @@ func runSched(t *testing.T, tape *verifsim.Tape, prop, tier string, keepLog bool
 			w.randomWorkload(sim)
 		}
 
-		stop := sim.RunUntil(w.clientsSettled, 3*time.Hour, 60000)
+		// An expired runner that is still referenced is re-queued every 10 ms by the
+		// code under test, so a long hold burns steps without being stuck: only
+		// quiescence (Idle) is evidence of a lost wake-up; an exhausted step budget is
+		// inconclusive and is counted, never reported.
+		stop := sim.RunUntil(w.clientsSettled, 3*time.Hour, 400000)
 		res.Info["stop_"+stop.String()]++
-		if stop == verifsim.Idle || stop == verifsim.SimBudget || stop == verifsim.StepBudget {
+		if stop == verifsim.Idle || stop == verifsim.SimBudget {
 			w.stuck(sim, stop, "workload")
 		}
 		if stop == verifsim.CondTrue {
 			w.drain(sim, res)
 		}
-		w.finalChecks(sim, stop)
+		if stop != verifsim.StepBudget && stop != verifsim.Overflow {
+			w.finalChecks(sim, stop)
+		}
 
 		for _, r := range w.reqs {
 			switch {
@@ -683,7 +689,7 @@ func (w *schedWorld) randomWorkload(sim *verifsim.Sim) {
 		r.ctx, r.cancel = context.WithCancel(base)
 		r.holdFor = time.Duration(d("hold", 4000)) * time.Millisecond
 		if d("longhold", 10) == 0 {
-			r.holdFor += time.Duration(d("longhold-s", 400)) * time.Second
+			r.holdFor += time.Duration(d("longhold-s", 120)) * time.Second
 		}
 		if cfg.unloadRate > 0 && d("is-unload", cfg.unloadRate) == 0 {
 			r.unload = true
@@ -780,6 +786,12 @@ func (w *schedWorld) stuck(sim *verifsim.Sim, stop verifsim.Stop, phase string) 
 		w.violate("C02", "deadlock", sig, "scheduler deadlocked during %s (%s); unanswered: %v\n%s", phase, stop, waiting, detail)
 		return
 	}
+	if full := w.fullEventChannels(); full != "" {
+		_, detail := sim.BlockedSummary()
+		w.violate("C02", "event-channel-full", "stuck:event-channel-full:"+full, "scheduler stuck during %s (%s) with internal event channel(s) %s full (their capacity is OLLAMA_MAX_QUEUE=%d) while the loops that drain them are themselves blocked; unanswered: %v\n%s",
+			phase, stop, full, w.cfg.maxQueue, waiting, detail)
+		return
+	}
 	funcs, detail := sim.BlockedSummary()
 	var repo []string
 	seen := map[string]bool{}
@@ -792,6 +804,21 @@ func (w *schedWorld) stuck(sim *verifsim.Sim, stop verifsim.Stop, phase string) 
 	if len(waiting) > 0 {
 		w.violate("C02", "lost-wakeup", "no-reply:"+strings.Join(sortedStrings(repo), "|"), "%s: %d request(s) that were not cancelled never received a reply (%s): %v\n%s", phase, len(waiting), stop, waiting, detail)
 	}
+}
+
+// fullEventChannels names the scheduler's internal event channels that are at capacity.
+func (w *schedWorld) fullEventChannels() string {
+	var full []string
+	if c := w.s.expiredCh; cap(c) > 0 && len(c) == cap(c) {
+		full = append(full, "expiredCh")
+	}
+	if c := w.s.finishedReqCh; cap(c) > 0 && len(c) == cap(c) {
+		full = append(full, "finishedReqCh")
+	}
+	if c := w.s.unloadedCh; cap(c) > 0 && len(c) == cap(c) {
+		full = append(full, "unloadedCh")
+	}
+	return strings.Join(full, "+")
 }
 
 func sortedStrings(s []string) []string {
@@ -841,8 +868,11 @@ func (w *schedWorld) drain(sim *verifsim.Sim, res *verifsim.Result) {
 		}
 		return len(w.s.loaded) == 0
 	}
-	stop := sim.RunUntil(allClosed, longest+10*time.Minute+time.Duration(len(w.models))*10*time.Second+15*time.Minute, 60000)
+	stop := sim.RunUntil(allClosed, longest+10*time.Minute+time.Duration(len(w.models))*10*time.Second+15*time.Minute, 1500000)
 	res.Info["drain_"+stop.String()]++
+	if stop == verifsim.StepBudget || stop == verifsim.Overflow {
+		return // inconclusive
+	}
 	if stop == verifsim.CondTrue {
 		verifsim.Probe("drain_complete")
 		// let stragglers (late finished events, vram polling) run
@@ -855,6 +885,11 @@ func (w *schedWorld) drain(sim *verifsim.Sim, res *verifsim.Result) {
 	if cyc := sim.LockCycle(); cyc != nil {
 		sig, detail := sim.DeadlockSignature(cyc)
 		w.violate("C02", "deadlock", sig, "scheduler deadlocked during drain (%s)\n%s", stop, detail)
+		return
+	}
+	if full := w.fullEventChannels(); full != "" {
+		_, detail := sim.BlockedSummary()
+		w.violate("C02", "event-channel-full", "stuck:event-channel-full:"+full, "scheduler stuck during drain (%s) with internal event channel(s) %s full (their capacity is OLLAMA_MAX_QUEUE=%d)\n%s", stop, full, w.cfg.maxQueue, detail)
 		return
 	}
 	var open []string
